@@ -443,15 +443,21 @@ long vorbis_book_decodevv_add(codebook *book,float **a,long offset,int ch,
                               oggpack_buffer *b,int n){
 
   long i,j,entry;
-  int chptr=0;
   if(book->used_entries>0){
-    int m=(offset+n)/ch;
-    for(i=offset/ch;i<m;){
+    /* the n values at [offset,offset+n) of the interleaved vector
+       (residue 2).  A partition need not begin or end on a frame
+       boundary: that happens whenever the partition size is not a
+       multiple of the channel count, and the values go to the channel
+       and sample their position in the interleaved vector says */
+    long pos=offset,end=offset+n;
+    int chptr=offset%ch;
+    i=offset/ch;
+    while(pos<end){
       entry = decode_packed_entry_number(book,b);
       if(entry==-1)return(-1);
       {
         const float *t = book->valuelist+entry*book->dim;
-        for (j=0;i<m && j<book->dim;j++){
+        for (j=0;pos<end && j<book->dim;j++,pos++){
           a[chptr++][i]+=t[j];
           if(chptr==ch){
             chptr=0;
